@@ -139,6 +139,17 @@ example :
         ([UExpr.sym "km", UExpr.sym "g", UExpr.sym "yr", UExpr.sym "K", UExpr.sym "rad", UExpr.sym "A", UExpr.sym "cd", UExpr.sym "Np"].map some)).toOption.isSome) = true := by
   decide +kernel
 
+/-- non-vacuity of `synth_scale` for coefficient-carrying base units: with `2 m`, `3 kg`, `5 s` the
+    unit synthesised for density is `(3 kg)·(2 m)⁻³ = 3/8 kg/m³`, for frequency `1/5 s⁻¹` -/
+example :
+    (let um : UMap Rat := baseDimsInit.zip
+        ([⟨2, [("m", 1)]⟩, ⟨3, [("kg", 1)]⟩, ⟨5, [("s", 1)]⟩, UExpr.sym "K", UExpr.sym "rad", UExpr.sym "A",
+          UExpr.sym "cd", UExpr.sym "Np"].map some)
+     let e := synth um { mass := 1, length := -3 }
+     let f := synth um { time := -1 }
+     e.coeff == 3 / 8 && UExpr.normF e.factors == [("kg", 1), ("m", -3)]
+       && f.coeff == 1 / 5 && UExpr.normF f.factors == [("s", -1)]) = true := by decide +kernel
+
 end examples
 
 /-! ## general theorems -/
@@ -184,6 +195,42 @@ theorem synth_dimension (pre : Prefixes K) (t : Lut K) (S : USys K) (hS : WF P p
   simp only [synth]
   rw [dimOver_base] at this
   exact this
+
+/-- the SI scale of the unit a system files under a base dimension: coefficient × scale of its
+    symbols (a base unit may be a quantity such as `3*Mpc`) -/
+def baseScale (pre : Prefixes K) (t : Lut K) (S : USys K) (bd : Dim) : K :=
+  match S.um.get? bd with
+  | some b => (match denote pre t b with | some (s, _) => s | none => 1)
+  | none => 1
+
+/-- **synth_scale**: the unit synthesised for `d` IS the product of the system's base units to the
+    exponents of `d`, coefficients included: its expression denotes scale `Π scale(baseᵢ)^eᵢ` and
+    dimension `d` — for every well-formed system, also one whose base units carry coefficients -/
+theorem synth_scale (pre : Prefixes K) (t : Lut K) (S : USys K) (hS : WF P pre t S) (d : Dim)
+    (hc : d.hasCurrent = true → S.hasCurrent = true) :
+    denote pre t (synth S.um d) = some (scaleOver (baseScale pre t S) d baseDimsSympy, d) := by
+  have := synthOver_denS P laws pre t S.um (baseScale pre t S) d baseDimsSympy (by
+    intro p hp h0
+    have hmem := baseDimsSympy_mem_init p hp
+    have hsome : ∃ b, S.um.get? p.1 = some b := by
+      by_cases hcur : p.1 = Dim.dCurrent
+      · have hproj : p.2 d = d.current := by
+          simp only [baseDimsSympy, List.mem_cons, List.not_mem_nil, or_false] at hp
+          rcases hp with h | h | h | h | h | h | h | h <;> subst h <;> first | rfl | (exact absurd hcur (by decide))
+        have hd : d.hasCurrent = true := by
+          simp only [Dim.hasCurrent, bne_iff_ne, ne_eq]; rw [← hproj]; exact h0
+        have hs := hc hd
+        simp only [USys.hasCurrent, Option.isSome_iff_exists] at hs
+        rw [hcur]; exact hs
+      · have hs := hS.base p.1 hmem hcur
+        simpa only [Option.isSome_iff_exists] using hs
+    obtain ⟨b, hb⟩ := hsome
+    obtain ⟨s, hden, hdn⟩ := denS_of_exprOK P laws pre t b p.1 (hS.entries _ b hb)
+    refine ⟨b, hb, ?_⟩
+    have : baseScale pre t S p.1 = s := by simp only [baseScale, hb, hdn]
+    rw [this]; exact hden)
+  obtain ⟨_, _, v, hv, _, hsv⟩ := this
+  simp only [synth, denote, hv, hsv, dimOver_base]
 
 omit laws in
 /-- **synth_atoms**: every symbol of a synthesised unit is a symbol of a base unit -/
@@ -421,6 +468,31 @@ theorem inBase_inside (S : USys K) (hS : WF P pre t S) (u v : UnitV K) (x y : K)
     obtain ⟨_, hfac⟩ := mkUnit_spec P laws pre t ex v hmk hpos w u.dim hw
     apply hown s
     rw [hfac, expOf_normF] at hs; exact hs
+
+/-- **in_base counts the system's own units**: for a dimension the system neither declares nor
+    has memoised (non-EM), the unit the result carries has exactly the scale `Π scale(baseᵢ)^eᵢ`
+    of the product of the system's base units — so, with `inBase_preserves_SI`, the returned number
+    is the count of that unit — whatever coefficients the base units carry -/
+theorem inBase_counts_system_units (S : USys K) (hS : WF P pre t S) (u v : UnitV K) (x y : K)
+    (hD : T.hasDim u.dim = false) (hn : S.um.get? u.dim = none)
+    (h : inBase pre t T S u x = .ok (y, v)) :
+    v.scale = scaleOver (baseScale pre t S) u.dim baseDimsSympy := by
+  obtain ⟨hcase, _, _⟩ := inBase_nonEm pre t T S u v x y hD h
+  rcases hcase with ⟨hm, _⟩ | ⟨_, ex, hl, hmk⟩
+  · simp [umMatches, hn] at hm
+  · have hlk := hl
+    simp only [USys.lookup, hn] at hl
+    split at hl
+    · contradiction
+    · rename_i hc
+      cases hl
+      have hcur : u.dim.hasCurrent = true → S.hasCurrent = true := by
+        intro hd; cases hs : S.hasCurrent <;> simp [hd, hs] at hc ⊢
+      have hsc := synth_scale P laws pre t S hS u.dim hcur
+      obtain ⟨⟨hpos, _, w, hw⟩, _⟩ := lookup_sound P laws pre t S hS u.dim _ hlk
+      have := mkUnit_scale P laws pre t _ v hmk hpos w u.dim hw
+      simp only [denote, hw, Option.some.injEq, Prod.mk.injEq] at hsc
+      rw [this]; exact hsc.1
 
 end inbase
 end general
